@@ -3,7 +3,7 @@
 (* Declarative meaning of the library's pure operations, one judgement per *)
 (* operation:  Judge(record) = set of clauses the recorded call violates.  *)
 (***************************************************************************)
-EXTENDS ClassIds, F2, Tomography, TLC
+EXTENDS ClassIds, F2, Tomography, CallsExtra, TLC
 
 C(cond, clause) == IF cond THEN {} ELSE {clause}
 
@@ -315,5 +315,5 @@ Judge(r) == CASE r.op = "classify" -> JudgeClassify(r)
               [] r.op = "f2" -> JudgeF2(r)
               [] r.op = "conn_graph" -> JudgeConnGraph(r)
               [] r.op = "mubfam" -> JudgeMubFam(r)
-              [] OTHER -> {"unknown-op"}
+              [] OTHER -> JudgeExtra(r)
 =============================================================================
